@@ -119,8 +119,6 @@ def text_meta(m):
         return m[1]
     if m[0] == "K":
         return m[1]
-    if m[2] == ("b", False):
-        return f"{m[1]}:false"      # `name: false` is a syntax error today (BoolConst is `^true|false`), see O1
     return f"{m[1]}: {text_val(m[2])}"
 
 
@@ -769,7 +767,7 @@ def gen_sugar_lr(rng):
 META_PROD = [("k", "left"), ("k", "right"), ("k", "reduce"), ("k", "shift"), ("k", "nops"), ("k", "nopse"),
              ("k", "dynamic"), ("i", "5"), ("i", "15"), ("i", "0"), ("i", "007"), ("i", "120"), ("K", "Add"),
              ("K", "Mul"), ("K", "P1"), ("u", "bla", ("i", "10")), ("u", "bla", ("i", "5")),
-             ("u", "flag", ("b", True)), ("u", "on", ("b", True)), ("u", "note", ("s", "some text")),
+             ("u", "flag", ("b", True)), ("u", "flag", ("b", False)), ("u", "on", ("b", False)), ("u", "note", ("s", "some text")),
              ("u", "w", ("f",) + FLOATS[0]), ("u", "w", ("f",) + FLOATS[1]), ("u", "w", ("f",) + FLOATS[3]),
              ("u", "w", ("f",) + FLOATS[4]), ("u", "priority", ("i", "7")), ("u", "priority", ("s", "hi")),
              ("u", "kind", ("s", "Knd")), ("u", "kind", ("i", "3")), ("u", "z.y", ("i", "1"))]
@@ -904,6 +902,13 @@ def gen_names(rng):
         where = rng.choice(["rule", "term", "ref"])
         if where == "rule":
             rules = [Rule("S", [Alt([T("Ta")])]), Rule(w, [Alt([T("Tb")])])]
+            v = rng.randrange(4)
+            if v == 1:      # as the first rule
+                rules = [Rule(w, [Alt([T("Tb")])]), Rule("S", [Alt([T("Ta")])])]
+            elif v == 2:    # and a terminal of that name: the reserved-name check comes first
+                terms = terms + [TermRule(w, ("S", "w"))]
+            elif v == 3:    # an earlier rule fails first
+                rules = [Rule("S", [Alt([Assign(Ref(("n", "Ta")), "p", "fn")])]), Rule(w, [Alt([T("Tb")])])]
         elif where == "term":
             terms = terms + [TermRule(w, ("S", "w"))]
             rules = [Rule("S", [Alt([T("Ta"), Assign(Ref(("n", w)), "p", "v")])])]
@@ -1091,9 +1096,9 @@ RAW_VALID = ["import 'x'\nS: Ta;\nterminals\nTa: 'a';\n",
              "/* c */ S: Ta /* d */; // e\nterminals\nTa: 'a';\n"]
 
 # documented-valid texts that are rejected today for a reason outside the builder (class id, text)
-# O1: BoolConst is compiled to `^true|false`; `false` is found ANYWHERE later in the text, so every ConstVal that is
-# followed somewhere by the word `false` (and `false` itself after a space) is mis-lexed.  The generator families
-# therefore never contain `false`.
+# O1 (repaired in repo 4815e49): BoolConst was compiled to `^true|false`; `false` was found ANYWHERE later in the text,
+# so every ConstVal followed somewhere by the word `false` (and `false` itself after a space) was mis-lexed.
+# The two texts stay in the corpus; the generator families use `false` again.
 RAW_KNOWN = [("text:bool-false", "S: Ta {flag: false};\nterminals\nTa: 'a';\n"),
              ("text:bool-false", "S: Ta {bla: 5} | Tb {flag:false};\nterminals\nTa: 'a';\nTb: 'b';\n")]
 
